@@ -39,6 +39,12 @@ def gen_cases(tier, seed):
         name = rng.choice(["min", "max", "sum", "mean", "percentile"])
         p = rng.choice(PS) if name == "percentile" else (0, 1)
         cases.append(dict(name=name, p=p, kind="exact", vals=l))
+    # percentile rank sweep: every integer p in 0..100 on inputs 0..len-1 (the result IS the rank); for integer p and
+    # len < 2^40 the f64 product len*p is exact and the correctly rounded quotient cannot cross an integer
+    lens = (list(range(1, 21)) + [25, 50, 64, 75, 99, 100, 101, 128, 150, 199, 200]) if tier == "quick" else list(range(1, 201))
+    for n in lens:
+        for pp in range(0, 101):
+            cases.append(dict(name="percentile", p=(pp, 1), kind="exact", vals=list(range(n))))
     for n in range(0, 10 if tier == "quick" else 40):
         for kind in KINDS:
             for name in ("count", "not"):
